@@ -34,7 +34,7 @@ PARTS = {"sim": {"check": check_case, "strategy": _strategy, "budget": {"quick":
 
 
 def vacuity(merged, tier):
-    for cls, lim in (("fills", 0.4), ("cancels", 0.3), ("expiries", 0.3)):
+    for cls, lim in (("fills", 0.16), ("cancels", 0.12), ("expiries", 0.12)):
         if frac(merged, "sim", cls) < lim:
             return f"class {cls} below {lim:.0%} of runs"
     return None
